@@ -397,7 +397,12 @@ func runC10(c *eng.Ctx) {
 				continue
 			}
 			cr2 := NewRun(s, m, nil, nil)
-			cr2.BuildCancelledAt(ri + 1)
+			if (ri+k)%7 == 3 {
+				cr2.BuildTimeoutAt(ri + 1) // a few positions through BuildWithOptions' timeout (costs wall-clock time)
+				c.R.Count("build_timeout_positions", 1)
+			} else {
+				cr2.BuildCancelledAt(ri + 1)
+			}
 			if cr2.Built {
 				// the cancellation came with the last singleton: the Build may legitimately succeed
 				cr2.Finish()
